@@ -567,6 +567,12 @@ theorem step_wf (s : World) (op : Op) (h : WF s.wheel) (hnp : (step s op).2 ≠ 
   | pollTimer k wk => exact h.pollTimer k wk
   | advance dt => exact h
 
+/-- the keys handed out by the `insert`s of a run -/
+def issued : List Out → List Key
+  | [] => []
+  | .ins (.some k) :: rest => k :: issued rest
+  | _ :: rest => issued rest
+
 /-- a key that is in the map leaves it only by `cancel` of that very key, or by a `wake` at or
 after its deadline -/
 theorem key_leaves (s : World) (op : Op) (k : Key) (hin : k ∈ keys s.wheel.entries)
